@@ -1,6 +1,6 @@
 (* The header encoders / decoders regenerated from the source (Gen/SrcGeonet.v, translator tools/pyz.py) put exactly the
    layout tables of Model/Wire.v on the wire, for ALL field values within their widths. *)
-From FlexVerif Require Import Base.Prelude Base.Bits Base.BitsFacts Model.Lifetime Model.Wire Gen.SrcGeonet.
+From FlexVerif Require Import Base.Prelude Base.Bits Base.BitsFacts Model.Lifetime Model.Wire Gen.SrcGeonet Proofs.WireProofs.
 From Coq Require Import ZifyBool.
 Ltac Zify.zify_post_hook ::= Z.to_euclidean_division_equations.
 
@@ -411,4 +411,146 @@ Proof.
     repeat match goal with |- context [if ?c then _ else _] => destruct c eqn:? end;
     repeat match goal with H : context [if ?c then _ else _] |- _ => destruct c eqn:? end;
     first [reflexivity | exfalso; lia].
+Qed.
+
+(* ---- GN address and Long Position Vector decoders; decode (encode fields) = fields ------------------------------------ *)
+(* finite sweeps over one octet, lifted by forallb_forall *)
+Lemma octet_sweep (P : Z -> bool) : forallb P (zrange 0 256) = true -> forall b, 0 <= b < 256 -> P b = true.
+Proof.
+  intros H b Hb. rewrite forallb_forall in H. apply H.
+  assert (G : forall n lo x, lo <= x < lo + Z.of_nat n -> In x (zrange lo n)).
+  { induction n as [|n IH]; intros lo x Hx; [lia|]. cbn [zrange]. destruct (Z.eq_dec x lo) as [->|Hne]; [left; reflexivity|].
+    right. apply IH. lia. }
+  apply G. lia.
+Qed.
+
+Lemma octet_m b : 0 <= b < 256 -> Z.shiftr (Z.land b 128) 7 = b / 128.
+Proof. intros Hb. apply Z.eqb_eq. revert b Hb. apply octet_sweep. vm_compute. reflexivity. Qed.
+Lemma octet_st b : 0 <= b < 256 -> Z.shiftr (Z.land b 124) 2 = (b / 4) mod 32.
+Proof. intros Hb. apply Z.eqb_eq. revert b Hb. apply octet_sweep. vm_compute. reflexivity. Qed.
+
+Lemma to_signed_src_model v bits : 0 < bits -> to_signed_src v bits = Some (to_signed bits v).
+Proof.
+  intros Hb. unfold to_signed_src, to_signed. rewrite !Z.shiftl_1_l.
+  replace (0 <=? bits - 1) with true by lia. replace (0 <=? bits) with true by lia.
+  rewrite Z.geb_leb. destruct (Z.leb_spec (2 ^ (bits - 1)) v); destruct (Z.ltb_spec v (2 ^ (bits - 1))); try lia; reflexivity.
+Qed.
+
+Lemma byte_low t w k : 0 <= k -> k + 8 <= w -> (t mod 2 ^ w) / 2 ^ k mod 2 ^ 8 = t / 2 ^ k mod 2 ^ 8.
+Proof.
+  intros Hk Hw. apply Z.bits_inj'. intros n Hn. destruct (Z.lt_ge_cases n 8).
+  - rewrite !Z.mod_pow2_bits_low by lia. rewrite !Z.div_pow2_bits by lia. rewrite Z.mod_pow2_bits_low by lia. reflexivity.
+  - rewrite !Z.mod_pow2_bits_high by lia. reflexivity.
+Qed.
+
+(* t / 2^a / 2^b ... -> t / 2^(a+b+...) with the exponent computed *)
+Ltac flat_div :=
+  rewrite ?Z.div_div by lia; rewrite <- ?Z.pow_add_r by lia;
+  repeat match goal with
+         | |- context [2 ^ (?a + ?b)] => let v := eval vm_compute in (a + b) in change (a + b) with v
+         end.
+
+Definition gnaddr_tuple (r : list Z) := (arg 0 r, arg 1 r, to_bytes 6 (arg 2 r)).
+
+(* GNAddress.decode of the eight octets of a 64-bit word = the model's view of the unpacked layout *)
+Lemma src_gnaddr_decode_word t : 0 <= t < 2 ^ 64 ->
+  GNAddress_decode (to_bytes 8 t) = option_map gnaddr_tuple (view_gnaddr (unpack gnaddr_ws t)).
+Proof.
+  intros Ht. unfold GNAddress_decode. rewrite to_bytes_length. cbn [Z.of_nat Pos.of_succ_nat Pos.succ Z.ltb Z.compare Pos.compare Pos.compare_cont].
+  change (Z.of_nat 8 <? 8) with false. cbn match. change (0 <? Z.of_nat 8) with true. cbn match.
+  unfold to_bytes, unpack, gnaddr_ws, view_gnaddr, gnaddr_tuple. cbn [repeat rev app unpack_rev nth firstn skipn arg length].
+  set (b0 := t / 2 ^ 8 / 2 ^ 8 / 2 ^ 8 / 2 ^ 8 / 2 ^ 8 / 2 ^ 8 / 2 ^ 8 mod 2 ^ 8).
+  assert (Hb0 : 0 <= b0 < 256) by (subst b0; apply Z.mod_pos_bound; lia).
+  rewrite (octet_m b0 Hb0), (octet_st b0 Hb0).
+  assert (E0 : t / 2 ^ 8 / 2 ^ 8 / 2 ^ 8 / 2 ^ 8 / 2 ^ 8 / 2 ^ 8 / 2 ^ 8 = t / 2 ^ 56)
+    by (rewrite !Z.div_div by lia; f_equal).
+  assert (E1 : t / 2 ^ 48 / 2 ^ 10 = t / 2 ^ 56 / 4) by (rewrite !Z.div_div by lia; f_equal).
+  assert (E2 : t / 2 ^ 48 / 2 ^ 10 / 2 ^ 5 = t / 2 ^ 56 / 128) by (rewrite !Z.div_div by lia; f_equal).
+  assert (Hq : 0 <= t / 2 ^ 56 < 256).
+  { split; [apply Z.div_pos; lia|]. apply Z.div_lt_upper_bound; [lia|]. change (2 ^ 56 * 256) with (2 ^ 64). lia. }
+  assert (Em : b0 / 128 = t / 2 ^ 48 / 2 ^ 10 / 2 ^ 5 mod 2 ^ 1).
+  { subst b0. rewrite E0, E2. generalize dependent (t / 2 ^ 56). intros q _ _ _ Hq. pow2. lia. }
+  assert (Est : (b0 / 4) mod 32 = t / 2 ^ 48 / 2 ^ 10 mod 2 ^ 5).
+  { subst b0. rewrite E0, E1. generalize dependent (t / 2 ^ 56). intros q _ _ _ Hq. pow2. lia. }
+  rewrite Em, Est. clear Em Est.
+  set (m := t / 2 ^ 48 / 2 ^ 10 / 2 ^ 5 mod 2 ^ 1). set (st := t / 2 ^ 48 / 2 ^ 10 mod 2 ^ 5).
+  assert (Hm : 0 <= m < 2) by (subst m; apply Z.mod_pos_bound; lia).
+  assert (Hst : 0 <= st < 32) by (subst st; apply Z.mod_pos_bound; lia).
+  unfold enum_mem_M, enum_mem_ST.
+  replace ((m =? 0) || (m =? 1)) with true by lia.
+  change (Z.of_nat 6 =? 6) with true. cbn match.
+  destruct (st <=? 12) eqn:E.
+  - replace ((st =? 0) || (st =? 1) || (st =? 2) || (st =? 3) || (st =? 4) || (st =? 5) || (st =? 6) || (st =? 7) || (st =? 8)
+             || (st =? 9) || (st =? 10) || (st =? 11) || (st =? 12)) with true by lia.
+    cbn [option_map]. do 2 f_equal. clearbody b0 m st. clear.
+    unfold to_bytes, unpack, arg. cbn [nth repeat rev app unpack_rev].
+    repeat match goal with |- _ :: _ = _ :: _ => apply f_equal2 end; try reflexivity; flat_div;
+      first [ symmetry; apply byte_low; lia
+            | replace ((t mod 2 ^ 48) mod 2 ^ 8) with ((t mod 2 ^ 48) / 2 ^ 0 mod 2 ^ 8)
+                by (change (2 ^ 0) with 1; rewrite Z.div_1_r; reflexivity);
+              rewrite byte_low by lia; change (2 ^ 0) with 1; rewrite Z.div_1_r; reflexivity ].
+  - replace ((st =? 0) || (st =? 1) || (st =? 2) || (st =? 3) || (st =? 4) || (st =? 5) || (st =? 6) || (st =? 7) || (st =? 8)
+             || (st =? 9) || (st =? 10) || (st =? 11) || (st =? 12)) with false by lia.
+    reflexivity.
+Qed.
+
+Definition lpv_tuple (r : list Z) :=
+  ((arg 0 r, arg 1 r, to_bytes 6 (arg 2 r)), arg 3 r, arg 4 r, arg 5 r, negb (arg 6 r =? 0), arg 7 r, arg 8 r).
+
+Lemma wf_bytes_firstn n bs : wf_bytes bs = true -> wf_bytes (firstn n bs) = true.
+Proof. unfold wf_bytes. rewrite !forallb_forall. intros H x Hx. apply H. eapply in_firstn; eassumption. Qed.
+
+Lemma src_lpv_decode data : wf_bytes data = true -> (24 <= length data)%nat ->
+  LPV_decode data = option_map lpv_tuple (dec_lpv data).
+Proof.
+  intros Hw Hl. unfold LPV_decode, dec_lpv, dec_fields. change (hdr_bytes lpv_ws) with 24%nat.
+  replace (Z.of_nat (length data) <? 24) with false by lia.
+  replace (length data <? 24)%nat with false by (symmetry; apply Nat.ltb_ge; exact Hl).
+  cbn [skipn obind].
+  pose proof (of_bytes_bound (firstn 24 data) (wf_bytes_firstn 24 data Hw)) as HX.
+  rewrite firstn_length_le in HX by exact Hl. change (8 * Z.of_nat 24) with 192 in HX.
+  set (X := of_bytes (firstn 24 data)) in *. clearbody X. clear data Hw Hl.
+  rewrite !Z.shiftr_div_pow2 by lia.
+  assert (Ht1 : 0 <= X / 2 ^ 128 < 2 ^ 64).
+  { split; [apply Z.div_pos; lia|]. apply Z.div_lt_upper_bound; [lia|]. change (2 ^ 128 * 2 ^ 64) with (2 ^ 192). lia. }
+  replace ((0 <=? X / 2 ^ 128) && (X / 2 ^ 128 <? 2 ^ 64)) with true by lia.
+  rewrite (src_gnaddr_decode_word _ Ht1).
+  assert (Eg : unpack gnaddr_ws (X / 2 ^ 128) = firstn 4 (unpack lpv_ws X)).
+  { unfold unpack, lpv_ws, gnaddr_ws. cbn [rev app unpack_rev firstn].
+    repeat match goal with |- _ :: _ = _ :: _ => apply f_equal2 end; try reflexivity; flat_div; reflexivity. }
+  unfold view_lpv. rewrite <- Eg. destruct (view_gnaddr (unpack gnaddr_ws (X / 2 ^ 128))) as [a|] eqn:Ea; [|reflexivity].
+  cbn [option_map].
+  unfold view_gnaddr in Ea. destruct (arg 1 (unpack gnaddr_ws (X / 2 ^ 128)) <=? 12); [|discriminate].
+  injection Ea as <-.
+  unfold TST_decode. rewrite !to_signed_src_model by lia.
+  unfold lpv_tuple, gnaddr_tuple. cbn [app arg nth].
+  unfold unpack, lpv_ws, gnaddr_ws. cbn [rev app unpack_rev arg nth].
+  change 4294967295 with (2 ^ 32 - 1). change 32767 with (2 ^ 15 - 1). change 65535 with (2 ^ 16 - 1).
+  rewrite !land_mask by lia.
+  replace (Z.land (X / 2 ^ 31) 1) with ((X / 2 ^ 31) mod 2 ^ 1) by (symmetry; apply (land_mask 1); lia).
+  change 4294967296 with (2 ^ 32).
+  f_equal. repeat match goal with |- (_, _) = (_, _) => apply f_equal2 end; try reflexivity; flat_div; reflexivity.
+Qed.
+
+(* decode (encode fields) = fields, on the functions regenerated from the source *)
+Lemma src_lpv_roundtrip m st mid tst lat lon pai s h :
+  0 <= m < 2 -> 0 <= st <= 12 -> wf_bytes mid = true -> length mid = 6%nat -> 0 <= tst < 2 ^ 32 ->
+  - 2 ^ 31 <= lat < 2 ^ 31 -> - 2 ^ 31 <= lon < 2 ^ 31 -> 0 <= pai < 2 -> - 2 ^ 14 <= s < 2 ^ 14 -> 0 <= h < 65536 ->
+  exists octets, LPV_encode m st mid tst lat lon pai s h = Some octets /\ length octets = 24%nat /\
+    LPV_decode octets = Some ((m, st, mid), tst, lat, lon, negb (pai =? 0), s, h).
+Proof.
+  intros Hm Hst Hw Hl Ht Hlat Hlon Hp Hs Hh.
+  pose proof (of_bytes_bound mid Hw) as Hb. rewrite Hl in Hb. change (8 * Z.of_nat 6) with 48 in Hb.
+  set (v := [m; st; of_bytes mid; tst; lat; lon; pai; s; h]).
+  assert (Hwf : wf_lpv v = true).
+  { unfold wf_lpv, wf_gnaddr, in_s, v. cbn [length firstn arg nth Nat.eqb]. rewrite !andb_true_iff, !fits_spec. pow2. lia. }
+  exists (enc_lpv v). split; [apply src_lpv_encode; (assumption || lia)|]. split; [apply enc_lpv_length|].
+  assert (Hwb : wf_bytes (enc_lpv v) = true).
+  { unfold enc_lpv, enc_fields. apply to_bytes_wf.
+    pose proof (pack_bound lpv_ws _ widths_nonneg_lpv (raw_lpv_fits m st (of_bytes mid) tst lat lon pai s h ltac:(lia) ltac:(lia) Hb Hp Hh)) as Hpb.
+    change (total_width lpv_ws) with 192 in Hpb. change (8 * Z.of_nat (hdr_bytes lpv_ws)) with 192. exact Hpb. }
+  rewrite src_lpv_decode by (rewrite ?enc_lpv_length; auto).
+  rewrite <- (app_nil_r (enc_lpv v)). rewrite dec_enc_lpv by exact Hwf.
+  cbn [option_map]. unfold lpv_tuple, v. cbn [arg nth].
+  rewrite <- Hl at 1. rewrite to_of_bytes by exact Hw. reflexivity.
 Qed.
